@@ -136,3 +136,26 @@ package aggsender
 //@   ensures[stored-range-and-retry] savedCount == old(savedCount) + 1 ==> lastSaved.FromBlock == lastParams.FromBlock && lastSaved.ToBlock == lastParams.ToBlock && lastSaved.RetryCount == lastParams.RetryCount && lastSaved.CertType == lastParams.CertificateType && lastSaved.L1InfoTreeLeafCount == lastParams.L1InfoTreeLeafCount
 //@   ensures[stored-prev-ler] savedCount == old(savedCount) + 1 ==> lastSaved.PreviousLocalExitRoot != nil && *lastSaved.PreviousLocalExitRoot == lastSentCert.PrevLocalExitRoot
 //@   ensures[built-from-params] sentCount == old(sentCount) + 1 ==> lastSentCert == lastBuilt && lastParams != nil
+
+// ---- the pending gate (C02): a certificate is only ever submitted right after a status check that found no
+// certificate still undecided. pendingAtLastCheck / newInErrorAtLastCheck record the answer of the most recent check.
+//@ ghost var pendingAtLastCheck bool
+//@ ghost var newInErrorAtLastCheck bool
+//@ ghost var statusChecks int
+//@ interface github.com/agglayer/aggkit/aggsender/types.CertificateStatusChecker.CheckPendingCertificatesStatus (self, ctx)
+//@   modifies pendingAtLastCheck, newInErrorAtLastCheck, statusChecks
+//@   ensures statusChecks == old(statusChecks) + 1 && pendingAtLastCheck == result.ExistPendingCerts && newInErrorAtLastCheck == result.ExistNewInErrorCert
+//@ interface github.com/agglayer/aggkit/aggsender/types.EpochNotifier.Subscribe (self, id)
+//@   modifies nothing
+//@ extern time.NewTicker (d)
+//@   modifies nothing
+//@   ensures result != nil && fresh(result)
+//@ extern (*time.Ticker).Stop (t)
+//@   modifies nothing
+//@ func (a *AggSender) sendCertificates
+//@   props C02
+//@   requires a != nil && a.storage != nil && a.log != nil && a.flow != nil && a.aggLayerClient != nil && a.epochNotifier != nil && a.rateLimiter != nil && a.certStatusChecker != nil && a.status != nil
+//@   modifies heap
+//@   loop 0 invariant a.storage != nil && a.log != nil && a.flow != nil && a.aggLayerClient != nil && a.epochNotifier != nil && a.rateLimiter != nil && a.certStatusChecker != nil && a.status != nil
+//@   assert call:sendCertificate:0 !pendingAtLastCheck && newInErrorAtLastCheck && a.cfg.RetryCertAfterInError
+//@   assert call:sendCertificate:1 !pendingAtLastCheck
